@@ -26,6 +26,7 @@ import BioCantor.Proofs.ValWindows
 import BioCantor.Proofs.ValMore
 import BioCantor.Proofs.ValColl
 import BioCantor.Proofs.ValPairs
+set_option autoImplicit false   -- an unresolved name in a statement must be an error, never a bound variable
 namespace BioCantor.Props.C19
 open BioCantor BioCantor.Model BioCantor.Model.Validate BioCantor.Proofs.Val
 open BioCantor.Spec.Validate (okMkSingle okMkCompound okMkParent okMkSeq okMkCDS okMkTx okMkVarColl okScanWin ascending
